@@ -344,7 +344,7 @@ def c04_corr(res, exe, driver, tier, seed, tmp):
     # the line motions with a count (LineBuffer::move_to_line_up / _down take the crate-private Layout: reachable only
     # through the editor): Up / Down with counts inside texts of several lines, under prompts of several widths, on a pty
     import p_tty
-    lm = p_tty.line_motion_cases(random.Random(seed * 67 + 3), 60 if tier == "thorough" else 24)
+    lm = p_tty.line_motion_cases(random.Random(seed * 67 + 3), 120 if tier == "thorough" else 48)
     p_tty.run_tty_cases(res, exe, driver, lm, tmp, "linemoves", compare_output=False)
     tabs = ud_tables()
     ws = WordSpec(tabs)
